@@ -473,7 +473,23 @@ func (doc *T) derefPaths(paths map[string]*PathItem, refNameResolver RefNameReso
 			continue
 		}
 		// the path items of an external callback are external even though they carry no $ref of their own
-		pathIsExternal := isExternalRef(ops.Ref, parentIsExternal) || parentIsExternal
+		// (a reference to a path of the root document itself is not external)
+		localPathRef := strings.HasPrefix(ops.Ref, "#/paths/") && !parentIsExternal
+		pathIsExternal := !localPathRef && isExternalRef(ops.Ref, parentIsExternal) || parentIsExternal
+		opsWithMethod := ops.Operations()
+		if localPathRef {
+			// A callback may name the path whose operation declares it: such a path item
+			// is reached from inside itself and cannot be inlined, its reference stays.
+			reachedFromInside := false
+			for _, op := range opsWithMethod {
+				if _, ok := doc.visited.operationInProgress[op]; ok {
+					reachedFromInside = true
+				}
+			}
+			if reachedFromInside {
+				continue
+			}
+		}
 		// inline full operations
 		ops.Ref = ""
 
@@ -484,9 +500,9 @@ func (doc *T) derefPaths(paths map[string]*PathItem, refNameResolver RefNameReso
 			}
 		}
 
-		opsWithMethod := ops.Operations()
 		for _, name := range componentNames(opsWithMethod) {
 			op := opsWithMethod[name]
+			doc.visited.operationInProgress[op] = struct{}{}
 			isExternal := doc.addRequestBodyToSpec(op.RequestBody, refNameResolver, pathIsExternal)
 			if op.RequestBody != nil && op.RequestBody.Value != nil {
 				doc.derefRequestBody(*op.RequestBody.Value, refNameResolver, pathIsExternal || isExternal)
@@ -507,6 +523,7 @@ func (doc *T) derefPaths(paths map[string]*PathItem, refNameResolver RefNameReso
 					doc.derefParameter(*param.Value, refNameResolver, pathIsExternal || isExternal)
 				}
 			}
+			delete(doc.visited.operationInProgress, op)
 		}
 	}
 }
